@@ -508,13 +508,14 @@ def insert_at_lines(body, anchors, where):
 # ---------------------------------------------------------------- driver
 
 class Unit:
-    def __init__(self, repo, verif, template_path, canary=None):
+    def __init__(self, repo, verif, template_path, canary=None, features=None):
+        self.feature_override = None if features is None else set(features)
         self.canary = canary          # vacuity guard: this fn gets `ensures false`
         self.canary_targets = []      # fns whose contract has a `requires`
         self.repo = repo
         self.verif = verif
         self.template_path = template_path
-        self.features = set()
+        self.features = set() if features is None else set(features)
         self.sources = {}
         self.items = []      # manifest entries
         self.external = []   # external_body contracts (assumptions)
@@ -639,7 +640,23 @@ class Unit:
         return out
 
     def render(self):
-        lines = open(self.template_path).read().split('\n')
+        raw_lines = open(self.template_path).read().split('\n')
+        # //@if <feature> ... //@else ... //@endif  (evaluated against the unit's feature set)
+        lines = []
+        stack = []
+        for ln in raw_lines:
+            st = ln.strip()
+            if st.startswith('//@if '):
+                stack.append(st[6:].strip() in self.features)
+                continue
+            if st == '//@else':
+                stack[-1] = not stack[-1]
+                continue
+            if st == '//@endif':
+                stack.pop()
+                continue
+            if all(stack):
+                lines.append(ln)
         out = []
         i = 0
         while i < len(lines):
@@ -655,7 +672,8 @@ class Unit:
                 continue
             cmd = d[0]
             if cmd == 'features':
-                self.features = set(x for x in (d[1].split(',') if len(d) > 1 else []) if x)
+                if self.feature_override is None:
+                    self.features = set(x for x in (d[1].split(',') if len(d) > 1 else []) if x)
                 i += 1
             elif cmd == 'include':
                 p = os.path.join(self.verif, d[1])
